@@ -356,4 +356,24 @@ def readersOk (S : Schema) (R : List (String × List (List String × String × L
     | none => false
     | some msg => r.2.all (caseOk S msg) && (r.2.flatMap (·.1)) == msg.jsonKeys)
 
+
+/-! ## what the JSON readers need to return decoder-shaped values -/
+
+/-- the decoding halves of the text codecs return well-formed data (true of `strconv`, `encoding/base64`, `encoding/hex`) -/
+structure TxtOut (T : Txt) : Prop where
+  fparse_lt : ∀ t n, T.fparse t = some n → n < 2 ^ 64
+  unb64_bytes : ∀ t b, T.unb64 t = some b → bytesOk b = true
+  unhex_bytes : ∀ t b, T.unhex t = some b → bytesOk b = true ∧ 2 * b.length = t.length
+
+/-- enum values fit an `int32` -/
+def enumsOk (S : Schema) : Bool := S.enums.all (fun e => e.values.all (fun p => p.2 < 2 ^ 32))
+
+/-- a reader that has a `case` for the proto name of a field also has one for its JSON name -/
+def keysSymAt (S : Schema) (m : Nat) : Bool :=
+  (S.slots m).all (fun s => match s with
+    | .one f => !((jsonKeysOf S m).any (fun k => str k == str f.orig)) || covered S m f
+    | .oneof _ alts => alts.all (fun f => !((jsonKeysOf S m).any (fun k => str k == str f.orig)) || covered S m f))
+
+def keysSymOk (S : Schema) : Bool := (List.range S.msgs.length).all (keysSymAt S)
+
 end OtelVerif.C08
